@@ -118,6 +118,66 @@ theorem readGraph_allNodup (fm : FileMap) (root : Nat) (g : Graph) (h : readGrap
   have hm' : (v, tf) ∈ g.verts := (sortBy_perm vertLe g.verts).mem_iff.mp hm
   exact wellKeyed_tasks_nodup tf (readGraph_wellKeyed fm root g h (v, tf) hm')
 
+/-! ### the walk over the records reports the error of the sequential read -/
+
+theorem ids_append (g : Graph) (f : Nat) (tf : Taskfile) :
+    Graph.ids { g with verts := g.verts ++ [(f, tf)] } = g.ids ++ [f] := by simp [Graph.ids]
+
+/-- outcome of a read as far as the walk is concerned: the files seen, or the error -/
+def idsOf : Except Err Graph → Except Err (List Nat)
+  | .ok g => .ok g.ids
+  | .error e => .error e
+
+theorem walkIncs_eq (fm : FileMap) (visit : Nat → Graph → Except Err Graph) (wk : Nat → List Nat → Except Err (List Nat))
+    (hv : ∀ c g, wk c g.ids = idsOf (visit c g))
+    (stack : List Nat) (parent : Nat) (ptf : Taskfile) (ds : List IncludeDecl) (g : Graph) :
+    walkIncs fm wk stack parent ds g.ids = idsOf (visitIncs fm visit stack parent ptf ds g) := by
+  induction ds generalizing g with
+  | nil => simp [walkIncs, visitIncs, idsOf]
+  | cons d r ih =>
+    simp only [walkIncs, visitIncs]
+    split
+    · split
+      · exact ih g
+      · rfl
+    · split
+      · rfl
+      · by_cases hc : g.ids.contains d.file = true
+        · simp only [hc, if_true]
+          exact ih { g with edges := addEdge parent d.file (resolveInclude ptf d) g.edges }
+        · simp only [hc, Bool.false_eq_true, if_false]
+          rw [hv d.file g]
+          cases hvis : visit d.file g with
+          | error e => simp [idsOf]
+          | ok g' =>
+            simp only [idsOf]
+            exact ih { g' with edges := addEdge parent d.file (resolveInclude ptf d) g'.edges }
+
+theorem walk_eq_visit (fm : FileMap) (fuel : Nat) (stack : List Nat) (f : Nat) (g : Graph) :
+    walk fm fuel stack f g.ids = idsOf (visit fm fuel stack f g) := by
+  induction fuel generalizing stack f g with
+  | zero => simp [walk, visit, idsOf]
+  | succ n ih =>
+    simp only [walk, visit]
+    split
+    · rfl
+    · rename_i tf _
+      split
+      · rfl
+      · split
+        · rfl
+        · rw [← ids_append g f tf]
+          exact walkIncs_eq fm _ _ (fun c g' => ih (f :: stack) c g') stack f tf tf.includes _
+
+/-- **the error reported is the error of the sequential read, and there is one exactly when
+the sequential read fails** — whatever the concurrent read did (the walk takes no schedule) -/
+theorem firstError_eq (fm : FileMap) (root : Nat) :
+    firstError fm root = (match readGraph fm root with | .ok _ => none | .error e => some e) := by
+  have := walk_eq_visit fm (fm.length + 1) [] root ⟨[], []⟩
+  simp only [Graph.ids, List.map_nil] at this
+  simp only [firstError, readGraph, this]
+  cases visit fm (fm.length + 1) [] root ⟨[], []⟩ <;> rfl
+
 theorem Store.get_of_mem : ∀ (st : Store) (v : Nat) (tf : Taskfile), (v, tf) ∈ st → ∃ tf', st.get v = some tf'
   | [], _, _, h => by cases h
   | (k, x) :: r, v, tf, h => by
